@@ -134,55 +134,6 @@ func coqStr(s string) string {
 	return "(string_of_list_ascii [" + strings.Join(bs, "; ") + "])"
 }
 
-func (c *Const) coq() string {
-	if c == nil {
-		return "None"
-	}
-	if c.IsStr {
-		return "(Some (CStr " + coqStr(c.S) + "))"
-	}
-	return fmt.Sprintf("(Some (CInt (%d)%%Z))", c.I)
-}
-
-func (e *E) coq() string {
-	a := e.C.coq()
-	switch e.K {
-	case "ident":
-		return fmt.Sprintf("(EIdent %s %s)", a, coqStr(e.Name))
-	case "lit":
-		patched := "None"
-		switch e.LK {
-		case "LString":
-			if s, err := strconv.Unquote(e.Text); err == nil {
-				patched = "(Some (CStr " + coqStr(s) + "))"
-			}
-		case "LInt":
-			if v, err := strconv.ParseInt(e.Text, 0, 64); err == nil {
-				patched = fmt.Sprintf("(Some (CInt (%d)%%Z))", v)
-			}
-		case "LFloat":
-			patched = "(Some COther)"
-		}
-		return fmt.Sprintf("(ELit %s %s %s)", a, e.LK, patched)
-	case "paren":
-		return fmt.Sprintf("(EParen %s %s)", a, e.X.coq())
-	case "unary":
-		return fmt.Sprintf("(EUnary %s %s %s)", a, coqStr(e.Op), e.X.coq())
-	case "binary":
-		return fmt.Sprintf("(EBinary %s %s %s %s)", a, coqStr(e.Op), e.X.coq(), e.Y.coq())
-	case "sel":
-		return fmt.Sprintf("(ESel %s %s %s)", a, e.X.coq(), coqStr(e.Field))
-	case "index":
-		return fmt.Sprintf("(EIndex %s %s %s)", a, e.X.coq(), e.Y.coq())
-	default:
-		var as []string
-		for _, x := range e.Args {
-			as = append(as, x.coq())
-		}
-		return fmt.Sprintf("(ECall %s %s [%s])", a, e.X.coq(), strings.Join(as, "; "))
-	}
-}
-
 // ------------------------------------------------------------------ generation
 
 type param struct {
@@ -219,6 +170,7 @@ type fileCase struct {
 	unhyg      bool // a parameter is named like a selected field or like the matcher
 	paramNamed bool // an identifier argument is spelled like a parameter of the called helper
 	octal      bool // a helper body contains a legacy octal literal
+	twice      bool // a helper is called more than once (with other arguments)
 }
 
 // package-level constants; several are named like helper parameters
@@ -266,15 +218,30 @@ func intLitSpellings(v int64) []string {
 // string-valued expression spellings of s which may appear inside a helper body or outside
 func strSpellings(rng *rand.Rand, s string) *E { return strSpellingsIn(rng, s, false) }
 
+// an interpreted string literal with one character written as an escape sequence
+func escLit(rng *rand.Rand, s string) *E {
+	if s == "" {
+		return strLit(s)
+	}
+	i := rng.Intn(len(s))
+	esc := []string{fmt.Sprintf("\\x%02x", s[i]), fmt.Sprintf("\\u%04x", s[i]), fmt.Sprintf("\\%03o", s[i]), fmt.Sprintf("\\U%08x", s[i])}[rng.Intn(4)]
+	return &E{K: "lit", LK: "LString", Text: `"` + s[:i] + esc + s[i+1:] + `"`, C: &Const{IsStr: true, S: s}}
+}
+
 // inBody: inside a helper body only literals survive the copy, so most spellings there are literals
 func strSpellingsIn(rng *rand.Rand, s string, inBody bool) *E {
 	if inBody && rng.Intn(6) != 0 {
-		if rng.Intn(3) == 0 {
+		switch rng.Intn(4) {
+		case 0:
 			return rawLit(s)
+		case 1:
+			return escLit(rng, s)
 		}
 		return strLit(s)
 	}
-	switch rng.Intn(7) {
+	switch rng.Intn(8) {
+	case 7:
+		return escLit(rng, s)
 	case 0:
 		return rawLit(s)
 	case 1:
@@ -740,6 +707,12 @@ func genFileCase(rng *rand.Rand) fileCase {
 		if where == nil && len(hs) > 0 {
 			where = sc.callOf(hs[len(hs)-1])
 		}
+		// the same helper called again with other arguments (the template must survive an expansion unchanged)
+		if len(hs) > 0 && rng.Intn(3) == 0 {
+			c := sc.callOf(hs[rng.Intn(len(hs))])
+			where = bin([]string{"&&", "||"}[rng.Intn(2)], where, c)
+			fc.twice = true
+		}
 		if pkgCall {
 			pc := call(ident("f"), intLit("8", 8))
 			if where == nil {
@@ -809,28 +782,6 @@ func renderFile(fc fileCase, inlined bool) string {
 		sb.WriteString("}\n\n")
 	}
 	return sb.String()
-}
-
-// the file as a term of the Coq model: list of groups, each a list of statements (RG.Load.MacroEnv)
-func coqFile(fc fileCase) string {
-	var gs []string
-	for _, g := range fc.groups {
-		var ss []string
-		for _, st := range g.stmts {
-			switch {
-			case st.def != nil:
-				var ps []string
-				for _, p := range st.def.params {
-					ps = append(ps, coqStr(p.name))
-				}
-				ss = append(ss, fmt.Sprintf("GDef (mkMacro %s [%s] %s)", coqStr(st.def.name), strings.Join(ps, "; "), st.def.body.coq()))
-			case st.where != nil:
-				ss = append(ss, "GRule "+st.where.coq())
-			}
-		}
-		gs = append(gs, fmt.Sprintf("mkGroup %s [%s]", coqStr(g.matcher), strings.Join(ss, ";\n   ")))
-	}
-	return "[" + strings.Join(gs, ";\n  ") + "]"
 }
 
 func renderRules(where string, pattern, report string) string {
@@ -953,6 +904,7 @@ type Case struct {
 	Nested  bool   `json:"nested"`
 	PNamed  bool   `json:"param_named"` // an identifier argument is spelled like a parameter of the called helper
 	Octal   bool   `json:"octal"`       // a helper body contains a legacy octal literal
+	Twice   bool   `json:"twice"`       // a helper is called more than once
 	Spell   string `json:"spelling,omitempty"`
 	Crash   bool   `json:"crash,omitempty"` // reported by the supervisor: the process died on this case
 }
@@ -1017,7 +969,8 @@ func main() {
 		c.B = observe(t, c.SrcB)
 		c.IREqual = c.A.IR != "" && c.A.IR == c.B.IR
 		c.Groups, c.Same, c.PkgFunc, c.Unhyg, c.Nested, c.PNamed, c.Octal = len(fc.groups), fc.sameName, fc.pkgFunc, fc.unhyg, fc.nested, fc.paramNamed, fc.octal
-		c.Model = coqFile(fc)
+		c.Twice = fc.twice
+		c.Model = modelOf(c.SrcA)
 		enc.Encode(c)
 		stdout.Flush()
 	}
